@@ -354,6 +354,37 @@ def run(F, R, tier):
                         "identities are added in bulk only under 'privilege defined', filtered by identity_dict.contains_key",
                         "bulk assignment insert not guarded by 'privilege defined' / not filtered by 'identity defined'")
             R.floor("C02.R6", len(hs) + len(ext), 1, "assignment insert sites")
+        # every role assignment that reaches a privilege is MERGED into that privilege's identity set: get-or-create of the set
+        # (entry().or_default() / or_insert_with(..) / contains_key + insert(new set)) must be followed by adding this assignment's
+        # identities to the set it hands back - `or_insert_with(|| these_identities)` alone keeps only the first assignment
+        for bi, w, r, t in B.calls_named("Entry::or_insert_with", "Entry::or_insert", "Entry::or_default"):
+            mty = str(B.locals[t["args"][0]["p"]["l"]].get("ty", "")) if t["args"] and t["args"][0].get("k") in ("copy", "move") else ""
+            if "HashSet" not in mty:
+                continue
+            dl_ = t["dest"]["l"]
+            merged = False
+            for c2 in B.calls_named("HashSet::extend", "Extend::extend", "HashSet::insert"):
+                a0 = c2[3]["args"][0] if c2[3]["args"] else None
+                if a0 is not None and a0.get("k") in ("copy", "move"):
+                    lo = a0["p"]["l"]
+                    hops_ = 0
+                    while lo != dl_ and hops_ < 6:
+                        hops_ += 1
+                        d_ = B.single_def(lo)
+                        if not d_ or d_[2] != "assign":
+                            break
+                        rv_ = d_[3]["rv"]
+                        nxt = rv_["o"]["p"]["l"] if rv_["k"] == "use" and rv_["o"].get("k") in ("copy", "move") else rv_["p"]["l"] if rv_["k"] == "ref" else None
+                        if nxt is None:
+                            break
+                        lo = nxt
+                    if lo == dl_ and bi in B.reach([0]) and c2[0] in B.reach([bi]):
+                        merged = True
+            R.check(merged, "C02.R3", R.key("C02.R3", fa_["id"], "assignment-merge"), q.where(B, bi),
+                    "the identity set obtained with %s is extended with this assignment's identities" % q.base_name(w).rsplit("::", 1)[-1],
+                    "the privilege's identity set is only created (%s), this assignment's identities are not added to an existing set: the "
+                    "first role assignment that reaches a privilege wins and later ones are dropped, so the decision depends on the "
+                    "order of roleAssignments" % q.base_name(w).rsplit("::", 1)[-1])
 
     # ------------------------------------------------------------------ R5
     ident = F.adts.get(KEYM + "Identity")
